@@ -1,6 +1,7 @@
 package main
 
 import (
+	"fmt"
 	"go/constant"
 	"go/token"
 	"strings"
@@ -57,6 +58,51 @@ type absInterp struct {
 	cmp func(a, b aiVal) (equal bool, ok bool)
 	// stop: the run ends with outcome "stop" when control is about to enter this block
 	stop func(from, to *ssa.BasicBlock) bool
+	// conv gives the meaning of a conversion (string ↔ []rune …); handled=false → the operand itself
+	conv func(ai *absInterp, cv *ssa.Convert) (aiVal, bool)
+}
+
+// aiCat concatenates string-like values into a flat "cat" value (parts in order).
+func aiCat(parts ...aiVal) aiVal {
+	out := aiVal{kind: "cat"}
+	for _, p := range parts {
+		if p.kind == "cat" {
+			out.tup = append(out.tup, p.tup...)
+		} else if !(p.kind == "str" && p.s == "") {
+			out.tup = append(out.tup, p)
+		}
+	}
+	if len(out.tup) == 1 {
+		return out.tup[0]
+	}
+	return out
+}
+
+// aiRender prints a string-like abstract value canonically.
+func aiRender(v aiVal) string {
+	switch v.kind {
+	case "sym":
+		return v.s
+	case "str":
+		return fmt.Sprintf("%q", v.s)
+	case "nil":
+		return "nil"
+	case "cat":
+		var ps []string
+		for _, p := range v.tup {
+			ps = append(ps, aiRender(p))
+		}
+		return strings.Join(ps, "+")
+	case "list":
+		var ps []string
+		for _, p := range v.tup {
+			ps = append(ps, aiRender(p))
+		}
+		return "[" + strings.Join(ps, " ") + "]"
+	case "int":
+		return fmt.Sprint(v.n)
+	}
+	return "?"
 }
 
 func (ai *absInterp) get(v ssa.Value) aiVal {
@@ -84,6 +130,12 @@ func (ai *absInterp) get(v ssa.Value) aiVal {
 	case *ssa.ChangeType:
 		return ai.get(t.X)
 	case *ssa.Convert:
+		if ai.conv != nil {
+			if v, ok := ai.conv(ai, t); ok {
+				ai.env[t] = v
+				return v
+			}
+		}
 		return ai.get(t.X)
 	}
 	return aiUnknown()
@@ -157,7 +209,7 @@ func (ai *absInterp) run(start, pred *ssa.BasicBlock, idx int) aiOutcome {
 							if i.n >= 0 && int(i.n) < len(l.tup) {
 								ai.env[t] = l.tup[i.n]
 							} else {
-								return aiOutcome{kind: "opaque", why: "index out of range in the abstract run", at: cur}
+								return aiOutcome{kind: "panic", why: fmt.Sprintf("index %d out of range [0,%d)", i.n, len(l.tup)), at: cur}
 							}
 							continue
 						}
@@ -205,8 +257,8 @@ func (ai *absInterp) run(start, pred *ssa.BasicBlock, idx int) aiOutcome {
 					default:
 						ai.env[t] = aiUnknown()
 					}
-				case t.Op == token.ADD && (l.kind == "str" || l.kind == "sym") && (r.kind == "str" || r.kind == "sym"):
-					ai.env[t] = aiSym("concat")
+				case t.Op == token.ADD && (l.kind == "str" || l.kind == "sym" || l.kind == "cat") && (r.kind == "str" || r.kind == "sym" || r.kind == "cat"):
+					ai.env[t] = aiCat(l, r)
 				default:
 					if ai.cmp != nil && (t.Op == token.LSS || t.Op == token.GEQ || t.Op == token.GTR || t.Op == token.LEQ) {
 						// ordered comparisons of symbols are left to the rule through cmp on a synthetic pair
@@ -291,6 +343,9 @@ func (ai *absInterp) run(start, pred *ssa.BasicBlock, idx int) aiOutcome {
 					if okB && lo >= 0 && lo <= hi && hi <= int64(len(base.tup)) {
 						ai.env[t] = aiVal{kind: "list", tup: append([]aiVal{}, base.tup[lo:hi]...)}
 						continue
+					}
+					if okB {
+						return aiOutcome{kind: "panic", why: fmt.Sprintf("slice bounds [%d:%d] out of range for length %d", lo, hi, len(base.tup)), at: cur}
 					}
 				}
 				ai.env[t] = aiUnknown()
